@@ -133,7 +133,7 @@ func runGpromise(c *Ctx) {
 						lastLoop, sawCtxTest = i, false
 					}
 				}
-				if l := g.lits[i]; l != nil && strings.Contains(l.f.String(), "ctx.Err()") {
+				if l := g.lits[i]; l != nil && strings.Contains(l.f.String(), paramRole(c, d, isContextType)+".Err()") {
 					sawCtxTest = true
 				}
 				if assignsField(ev, "promise.Once.prom", "") && ev.Rhs != nil && !isNilExpr(ev.Rhs, ev.Frame) {
@@ -177,9 +177,20 @@ func runGpromise(c *Ctx) {
 						completed = true
 					}
 					if assignsField(ev, "promise.Once.prom", "nil") {
-						want := eq("promise.Once.prom", "prom")
+						promRole := "?prom"
+						if v := localWhere(d, d.Decl, func(v *types.Var, _ *ast.Ident) bool {
+							pt, ok := v.Type().(*types.Pointer)
+							if !ok {
+								return false
+							}
+							n, ok := pt.Elem().(*types.Named)
+							return ok && n.Obj().Name() == "Promise"
+						}); v != nil {
+							promRole = c.Role(v)
+						}
+						want := eq("promise.Once.prom", promRole)
 						if errVar != nil {
-							want = fand(want, fnot(eq(errVar.Name(), "nil")))
+							want = fand(want, fnot(eq(c.Role(errVar), "nil")))
 						}
 						a.requireGuard("R8", lname+"/clear-on-failure", g, i, false, want, "clearing o.prom")
 						a.note("R8", lname+"/clear-on-failure/own-error", ev.Pos, !(cbIdx >= 0 && errFromCb),
@@ -211,7 +222,11 @@ func runGpromise(c *Ctx) {
 						}
 					}
 					if ev.Kind == core.KCall && ev.Callee == nil && ev.Builtin == "" && len(pv) > 0 && identVar(ev.Call.Fun, ev.Frame) == pv[0] {
-						a.requireGuard("R8", lname+"/call-once", g, i, false, fnot(fld("started.Swap(true)")), "calling the memoized function")
+						startedRole := "?started"
+						if v := localWhere(d, d.Decl, func(v *types.Var, _ *ast.Ident) bool { return core.IsAtomicType(v.Type()) }); v != nil {
+							startedRole = c.Role(v)
+						}
+						a.requireGuard("R8", lname+"/call-once", g, i, false, fnot(fld(startedRole+".Swap(true)")), "calling the memoized function")
 						a.note("R8", lname+"/close-deferred-before-call", ev.Pos, !closeDeferred, "close(done) is deferred before fn is called", "fn is called before close(done) is deferred: if fn panics the other callers block forever, or the result is published before it is written", p)
 					}
 				}
@@ -241,13 +256,40 @@ func runGccall(c *Ctx) {
 			p    *core.Path
 		}
 		var wps []wp
-		want := fand(fnot(eq("err", "nil")), for_(eq("exitErr", "nil"), eq("context.Canceled", "exitErr")))
+		// the shared error (assigned in the worker, declared outside it), the worker's own error and
+		// the shared counter it decrements
+		var sharedErr, ownErr, counter *types.Var
+		ast.Inspect(l.Body, func(n ast.Node) bool {
+			switch x := n.(type) {
+			case *ast.AssignStmt:
+				if len(x.Lhs) == 1 && len(x.Rhs) == 1 {
+					lv := identVar(x.Lhs[0], &core.Frame{Pkg: d.Pkg})
+					if lv != nil && isErrorType(lv.Type()) && !(lv.Pos() >= l.Pos() && lv.Pos() < l.End()) {
+						sharedErr = lv
+						ownErr = identVar(x.Rhs[0], &core.Frame{Pkg: d.Pkg})
+					}
+				}
+			case *ast.IncDecStmt:
+				if x.Tok == token.DEC {
+					if v := identVar(x.X, &core.Frame{Pkg: d.Pkg}); v != nil && !(v.Pos() >= l.Pos() && v.Pos() < l.End()) {
+						counter = v
+					}
+				}
+			}
+			return true
+		})
+		if sharedErr == nil || ownErr == nil {
+			c.MissingAnchor("R12", lname+": the assignment of the worker's error to the shared error variable")
+			continue
+		}
+		se, oe := c.Role(sharedErr), c.Role(ownErr)
+		want := fand(fnot(eq(oe, "nil")), for_(eq(se, "nil"), eq("context.Canceled", se)))
 		c.Walk("R13a", &core.Config{}, core.Entry{Lit: l, Pkg: d.Pkg, Outer: d, Name: lname}, func(p *core.Path) {
 			g := prepare(c, p)
 			decs := 0
 			wrote := false
 			for i, ev := range p.Events {
-				if incDecLocal(ev, "running", token.DEC) {
+				if ev.Kind == core.KIncDec && ev.Tok == token.DEC && counter != nil && identVar(ev.Lhs, ev.Frame) == counter {
 					decs++
 					bc := false
 					for j := i; j < len(p.Events) && g.sec[j] == g.sec[i] && g.sec[i] >= 0; j++ {
@@ -259,7 +301,7 @@ func runGccall(c *Ctx) {
 						"running-- happens under the lock in a section that broadcasts", "running-- happens outside the lock or in a section that does not broadcast: the caller can observe running == 0 before the error is recorded, or is never woken", p)
 				}
 				if ev.Kind == core.KAssign && !ev.FieldInit {
-					if v := identVar(ev.Lhs, ev.Frame); v != nil && v.Name() == "exitErr" {
+					if v := identVar(ev.Lhs, ev.Frame); v != nil && v == sharedErr {
 						wrote = true
 						a.requireGuard("R12", lname+"/record-error", g, i, true, want, "recording the worker's error")
 					}
@@ -281,6 +323,26 @@ func runGccall(c *Ctx) {
 		a.expect("R13a", lname+"/decrement-in-broadcasting-section", 1, "running-- in the worker")
 		a.expect("R12", lname+"/record-error", 1, "exitErr = err in the worker")
 	}
+	// the counter the workers decrement and the error they share (found in the worker closures)
+	var counterVar, sharedErrVar *types.Var
+	for _, l := range escapingLits(c, d) {
+		l := l
+		ast.Inspect(l.Body, func(n ast.Node) bool {
+			switch x := n.(type) {
+			case *ast.IncDecStmt:
+				if v := identVar(x.X, &core.Frame{Pkg: d.Pkg}); v != nil && x.Tok == token.DEC && !(v.Pos() >= l.Pos() && v.Pos() < l.End()) {
+					counterVar = v
+				}
+			case *ast.AssignStmt:
+				if len(x.Lhs) == 1 {
+					if v := identVar(x.Lhs[0], &core.Frame{Pkg: d.Pkg}); v != nil && isErrorType(v.Type()) && !(v.Pos() >= l.Pos() && v.Pos() < l.End()) {
+						sharedErrVar = v
+					}
+				}
+			}
+			return true
+		})
+	}
 	c.Walk("R13a", &core.Config{}, core.Entry{Decl: d}, func(p *core.Path) {
 		g := prepare(c, p)
 		cancelDeferred := false
@@ -298,13 +360,19 @@ func runGccall(c *Ctx) {
 			if ev.Kind == core.KLoop {
 				incSince = false
 			}
-			if incDecLocal(ev, "running", token.INC) {
+			if ev.Kind == core.KIncDec && ev.Tok == token.INC && counterVar != nil && identVar(ev.Lhs, ev.Frame) == counterVar {
 				incSince = true
 			}
 			if ev.Kind == core.KGo {
 				if v := identVar(ev.Call.Fun, ev.Frame); v != nil && len(ei.Bound[v]) > 0 {
 					a.note("R13a", name+"/spawn-counted", ev.Pos, !incSince, "each spawned worker is counted (running++) in the same iteration", "a worker is spawned without running++ in the same iteration: the caller stops waiting before it has finished", p)
-					a.requireGuard("R6a", name+"/spawn-non-nil", g, i, false, fnot(eq("fn", "nil")), "spawning a worker")
+					fnRole := "?fn"
+					if len(ev.Call.Args) == 1 {
+						if av := identVar(ev.Call.Args[0], ev.Frame); av != nil {
+							fnRole = c.Role(av)
+						}
+					}
+					a.requireGuard("R6a", name+"/spawn-non-nil", g, i, false, fnot(eq(fnRole, "nil")), "spawning a worker")
 					a.note("R13e", name+"/cancel-deferred", ev.Pos, !cancelDeferred, "subCtxCancel is deferred before workers are spawned", "workers are spawned before the sub-context's cancel func is deferred: the context given to the functions is not cancelled when the call returns", p)
 				}
 			}
@@ -330,7 +398,7 @@ func runGccall(c *Ctx) {
 					ok := false
 					if v != nil {
 						if dd, has := g.defs[i][v]; has && dd.expr != nil {
-							if sv := identVar(dd.expr, dd.fr); sv != nil && sv.Name() == "exitErr" && dd.sec >= 0 {
+							if sv := identVar(dd.expr, dd.fr); sv != nil && sv == sharedErrVar && dd.sec >= 0 {
 								ok = true
 							}
 						}
@@ -418,9 +486,9 @@ func runGconc(c *Ctx) {
 					okVar = identVar(ev.Lhs, ev.Frame)
 				}
 				if incDecField(ev, running, token.DEC) {
-					okName := "jobOk"
+					okName := "?popOk"
 					if okVar != nil {
-						okName = okVar.Name()
+						okName = c.Role(okVar)
 					}
 					a.requireGuard("R12", name+"/retire-when-empty", g, i, true, fnot(fld(okName)), "running-- (retiring the worker)")
 					a.note("R12", name+"/retire-when-empty/same-section", ev.Pos, !(popIdx >= 0 && g.sec[popIdx] == g.sec[i] && g.sec[i] >= 0),
@@ -428,9 +496,9 @@ func runGconc(c *Ctx) {
 						"running-- is decided by a Pop made outside the critical section of the decrement: Enqueue can queue a job behind a worker that has already decided to exit, and the job is stranded", p)
 				}
 				if incDecField(ev, qsize, token.DEC) {
-					okName := "jobOk"
+					okName := "?popOk"
 					if okVar != nil {
-						okName = okVar.Name()
+						okName = c.Role(okVar)
 					}
 					a.requireGuard("R12", name+"/dequeue-count", g, i, true, fld(okName), "jobQueueSize--")
 				}
